@@ -359,9 +359,35 @@ func normCond(info *types.Info, c pcond, subst map[types.Object]string) string {
 	if c.expr == nil {
 		return neg(c.text, c.truth)
 	}
+	if u, ok := ast.Unparen(c.expr).(*ast.UnaryExpr); ok && u.Op == token.NOT {
+		return normCond(info, pcond{expr: ast.Unparen(u.X), truth: !c.truth}, subst)
+	}
 	be, ok := ast.Unparen(c.expr).(*ast.BinaryExpr)
 	if !ok {
 		return neg(render(info, c.expr, subst), c.truth)
+	}
+	// a disjunction (`a || b` holding, or `a && b` not holding: De Morgan) is rendered as the sorted set of its
+	// canonical alternatives; conjunctions never reach this point whole (splitCond flattens them)
+	if (be.Op == token.LOR && c.truth) || (be.Op == token.LAND && !c.truth) {
+		var alts []string
+		var collect func(e ast.Expr)
+		collect = func(e ast.Expr) {
+			e = ast.Unparen(e)
+			if b2, ok := e.(*ast.BinaryExpr); ok && b2.Op == be.Op {
+				collect(b2.X)
+				collect(b2.Y)
+				return
+			}
+			var parts []string
+			for _, sc := range splitCond(e, c.truth) {
+				parts = append(parts, normCond(info, sc, subst))
+			}
+			sort.Strings(parts)
+			alts = append(alts, strings.Join(parts, " && "))
+		}
+		collect(be)
+		sort.Strings(alts)
+		return "(" + strings.Join(uniqStr(alts), " || ") + ")"
 	}
 	x, y := render(info, be.X, subst), render(info, be.Y, subst)
 	truth := c.truth
@@ -981,4 +1007,45 @@ func interConds(w *World, root, cf *FuncInfo, target ast.Node) (conds []pcondAt,
 		conds = append(conds, pcondAt{c, cf})
 	}
 	return conds, pmap, true
+}
+
+// accumReach is one accumulation of a loop with the conditions it is reached under, split into those shared by every
+// accumulation of the loop (the loop's filter) and the rest (its own).
+type accumReach struct {
+	accum
+	own []string
+}
+
+// loopFilterSplit returns the conditions common to all accumulations of the loop (its filter, canonical) and, per
+// accumulation, the remaining ones.
+func loopFilterSplit(info *types.Info, fd *ast.FuncDecl, rs *ast.RangeStmt, subst map[types.Object]string) (filter []string, accs []accumReach) {
+	all := accumStmts(info, fd, rs)
+	count := map[string]int{}
+	var sets [][]string
+	for _, a := range all {
+		cs := reachConds(info, fd, rs, a.stmt, subst)
+		sets = append(sets, cs)
+		for _, c := range cs {
+			count[c]++
+		}
+	}
+	for c, n := range count {
+		if n == len(all) {
+			filter = append(filter, c)
+		}
+	}
+	sort.Strings(filter)
+	for i, a := range all {
+		var own []string
+		for _, c := range sets[i] {
+			if count[c] != len(all) {
+				own = append(own, c)
+			}
+		}
+		accs = append(accs, accumReach{a, own})
+	}
+	if filter == nil {
+		filter = []string{}
+	}
+	return
 }
